@@ -316,7 +316,8 @@ def _pick(rng, weighted):
     return weighted[-1][0]
 
 
-SYM_POOLS = [(("N", "M", "K"), 84), (("batch_size", "N", "d_\u00e9"), 8), (("0", "unk_1", "N"), 8)]
+SYM_POOLS = [(("N", "M", "K"), 80), (("batch_size", "N", "d_\u00e9"), 7), (("0", "unk_1", "N"), 6),
+             (("unk__0", "N", "unk__12"), 7)]  # the caller's own names that look like ONNX's invented ones
 _SYM_POOL = [("N", "M", "K")]  # the pool of the call being generated (set by gen_call)
 
 
@@ -432,7 +433,7 @@ def _gen_attr_value(rng, op_name, aname, a, rank, is_dtype=False):
         shape = [d if isinstance(d, int) else 2 for d in shape]
         return {"tensor": {"dtype": e, "shape": shape, "data": _const_data(rng, e, shape)}}
     if t == T.TYPE_PROTO:
-        return {"type": {"t": rng.choice([1, 7]), "s": _rand_dims(rng, rng.randint(0, 2))}}
+        return {"type": {"t": rng.choice([1, 7]), "s": _rand_dims(rng, rng.randint(0, 2), sym_pool=("N", "M", "K"))}}
     return None  # GRAPH / SPARSE_TENSOR: not generated
 
 
@@ -650,6 +651,10 @@ def gen_call(rng, op: Op, force: Optional[str] = None) -> dict:
     """One abstract constructor call for `op`. `force` selects a calling-form family
     ("constfed": every operand a known constant, value propagation on)."""
     _SYM_POOL[0] = _pick(rng, SYM_POOLS)
+    if op.name in BODY_OPS and "unk__0" in _SYM_POOL[0]:
+        # (names reaching the outputs through a body's outer-scope values are not operand names: the
+        #  constructor only looks at the input types - not generated, see design.d)
+        _SYM_POOL[0] = ("N", "M", "K")
     if op.name in BODY_OPS:
         return _ambient(rng, _gen_body_call(rng, op, "plain" if force == "constfed" else force))
     constfed = force == "constfed"
@@ -1271,9 +1276,16 @@ def has_optional_outputs(op: Op) -> bool:
 def oracle_run(op: Op, call, explicit_defaults: bool = False, optional_outputs: bool = True) -> dict:
     """ONNX's strict type-and-shape inference on the hand-built node."""
     model = oracle_model(op, call, explicit_defaults, optional_outputs)
+    # dimension names that are the caller's: those of the operands of THIS call (a flow / history
+    # shares its Var list between calls) and of the outer-scope values its bodies read
     known = set()
-    for v in call["vars"]:
-        dim_params(v["ty"], known)
+    used = {v for a in call["args"] for v in (a if isinstance(a, list) else [a]) if v is not None}
+    if call.get("sub") and call["op"] in ("If", "Loop"):
+        for lst in call["sub"].values():
+            used |= {v for v in lst if isinstance(v, int)}
+    for i, v in enumerate(call["vars"]):
+        if i in used:
+            dim_params(v["ty"], known)
     for val in call["attrs"].values():
         if isinstance(val, dict) and "type" in val:
             dim_params(val["type"], known)
